@@ -14,7 +14,7 @@ ASSUMPTIONS = ['port contract: getters deterministic during a run, string getter
 
 
 def project(lines):
-    return [l for l in lines if l.startswith(('#', 'tx', 'sleep', 'abort', 'fault', 'bad-op'))]
+    return [l for l in lines if l.startswith(('#', 'tx', 'sleep', 'abort', 'fault', 'bad-op', 'st ', 'obs '))]
 
 
 def attrs(rng):
